@@ -790,11 +790,11 @@ def tier_c_folds(run, thorough):
                     rk(dict(b, k=None), 'of_k_rdm')        # default group size (k=5 in the signature)
                     if not desc:
                         rk(dict(b, k=None), 'of_k_pattern')
-    if False:  # pending triage: of_k_pattern,default-descriptors
+    if False:  # pending triage: of_k_pattern,default-pattern-descriptor-is-None
         # sets_of_k_pattern(rdms, k=2): the default pattern_descriptor=None is passed to add_pattern_index, which no longer
         # replaces None by 'index' (its docstring says it does) -> KeyError: None for every input
-        reg_as('default-descriptors')(dict(n_rdm=4, n_cond=5, rg=[0, 1, 2, 3], pg=[0, 1, 2, 3, 4], desc='default', k=2,
-                                           random=False, seed=0), 'of_k_pattern')
+        reg_as('default-pattern-descriptor-is-None')(dict(n_rdm=4, n_cond=5, rg=[0, 1, 2, 3], pg=[0, 1, 2, 3, 4], desc='default', k=2,
+                                                          random=False, seed=0), 'of_k_pattern')
     # (4) call sequences: another data set of the same shape in between, then the same call again
     for (n_rdm, n_cond) in shapes[:3] if thorough else shapes[:1]:
         for rg, pg, cont, seqs in ((list(range(n_rdm)), list(range(n_cond)), 'array', ('values', 'regroup')[:2 if thorough else 1]),
